@@ -246,6 +246,93 @@ def cli_fresh_oracle(ctx, rounds):
         shutil.rmtree(wd, ignore_errors=True)
 
 
+# ------------------------------------------------------------------------------------------------
+# history search (round 4): documents aimed at the places where state could be kept between calls
+# (pixmap pools, scratch buffers, nesting / budget counters, memo tables), rendered k times in a row on one
+# long-lived thread and compared with a fresh thread.
+# ------------------------------------------------------------------------------------------------
+def state_docs(rng, n):
+    docs = []
+    for _ in range(n):
+        kind = rng.below(4)
+        w = 40 + 8 * rng.below(6)
+        if kind == 0:
+            # many uses of a pattern whose tile rounds to zero device pixels (early return in render_pattern_pixmap),
+            # then a valid pattern
+            tiny = '<pattern id="t" patternUnits="userSpaceOnUse" width="0.%s1" height="0.0001"><rect width="1" height="1"/></pattern>' % ('0' * (3 + rng.below(3)))
+            good = '<pattern id="g" patternUnits="userSpaceOnUse" width="8" height="8"><rect width="4" height="4" fill="#%06x"/></pattern>' % rng.below(1 << 24)
+            body = ''.join('<rect x="%d" y="2" width="6" height="6" fill="url(#t)"/>' % (2 + 7 * i) for i in range(3 + rng.below(9)))
+            body += '<rect x="4" y="20" width="%d" height="40" fill="url(#g)" stroke="url(#g)" stroke-width="3"/>' % (w - 8)
+            docs.append('<svg %s width="%d" height="70">%s%s%s</svg>' % (NS, w + 30, tiny, good, body))
+        elif kind == 1:
+            # intermediate filter results of one region size, then a primitive that does not write every pixel
+            sc = 30 + rng.below(200)
+            flt = ('<filter id="f" filterUnits="userSpaceOnUse" x="0" y="0" width="%d" height="%d">'
+                   '<feFlood flood-color="#%06x" result="a"/><feOffset in="SourceGraphic" dx="%d" dy="3" result="b"/>'
+                   '<feTurbulence baseFrequency="0.0%d" numOctaves="2" seed="%d" result="n"/>'
+                   '<feDisplacementMap in="b" in2="n" scale="%d" xChannelSelector="R" yChannelSelector="G" result="d"/>'
+                   '<feMerge><feMergeNode in="d"/></feMerge></filter>' % (w, w, rng.below(1 << 24), 1 + rng.below(6), 3 + rng.below(6), rng.below(50), sc))
+            docs.append('<svg %s width="%d" height="%d">%s<circle cx="%d" cy="%d" r="%d" fill="#%06x" filter="url(#f)"/>'
+                        '<rect x="3" y="3" width="%d" height="%d" fill="#%06x" filter="url(#f)"/></svg>'
+                        % (NS, w, w, flt, w // 2, w // 2, w // 3, rng.below(1 << 24), w // 2, w // 3, rng.below(1 << 24)))
+        elif kind == 2:
+            # small-deviation blurs (IIR kernel with a working buffer), several sizes
+            parts = ''.join('<filter id="b%d"><feGaussianBlur stdDeviation="%d.%d %d.%d"/></filter>'
+                            '<rect x="%d" y="%d" width="%d" height="%d" fill="#%06x" filter="url(#b%d)"/>'
+                            % (i, rng.below(2), 1 + rng.below(9), rng.below(2), 1 + rng.below(9), 4 + 9 * i, 4 + 5 * i, 10 + 3 * i, 12 + 2 * i, rng.below(1 << 24), i)
+                            for i in range(2 + rng.below(4)))
+            docs.append('<svg %s width="%d" height="%d">%s</svg>' % (NS, w + 20, w, parts))
+        else:
+            # nested groups with opacity / masks / clips (layer pixmaps of equal sizes) and nested patterns
+            inner = '<rect x="5" y="5" width="%d" height="%d" fill="#%06x"/>' % (w - 10, w - 10, rng.below(1 << 24))
+            for d in range(2 + rng.below(5)):
+                inner = '<g opacity="0.%d"%s>%s<circle cx="%d" cy="%d" r="%d" fill="#%06x"/></g>' % (
+                    3 + rng.below(6), ' mask="url(#m)"' if rng.below(3) == 0 else (' clip-path="url(#c)"' if rng.below(3) == 0 else ''),
+                    inner, 10 + 3 * d, 12 + 2 * d, 5 + d, rng.below(1 << 24))
+            docs.append('<svg %s width="%d" height="%d"><mask id="m"><rect width="%d" height="%d" fill="white" fill-opacity="0.6"/></mask>'
+                        '<clipPath id="c"><circle cx="%d" cy="%d" r="%d"/></clipPath>'
+                        '<pattern id="p1" patternUnits="userSpaceOnUse" width="10" height="10"><rect width="6" height="6" fill="red"/></pattern>'
+                        '<pattern id="p2" patternUnits="userSpaceOnUse" width="20" height="20"><rect width="15" height="15" fill="url(#p1)"/></pattern>'
+                        '%s<rect x="2" y="2" width="20" height="20" fill="url(#p2)"/></svg>'
+                        % (NS, w, w, w, w, w // 2, w // 2, w // 2, inner))
+    return docs
+
+
+def history_oracle(ctx, binp, items, k):
+    inp = "".join("%d\t%s\t%s\n" % (i, it[0], it[1]) for i, it in enumerate(items))
+    rc, out = ctx.rvh(binp, ['c06-history', str(k)], inp=inp, timeout=120 + len(items) * (k + 2))
+    done = None
+    base = {}
+    mism = []
+    for line in out.splitlines():
+        if '\t' not in line:
+            continue
+        a, b = line.split('\t', 1)
+        try:
+            v = json.loads(b)
+        except ValueError:
+            continue
+        if a == 'MISMATCH':
+            mism.append(v)
+        elif a == 'DONE':
+            done = v
+        elif a.isdigit():
+            base[int(a)] = v
+    if rc != 0 or done is None:
+        ctx.violation("e2e-C06 history pass (k renders in a row on one thread) died", dict(rc=rc, tail=out[-600:], k=k), found_input=False)
+        return 0
+    for i, v in base.items():
+        ctx.note_case("e2e/history/%s" % v.get('p', ''), nontrivial=v.get('p', '-') not in ('-', 'nocanvas', 'toolarge'))
+    for m in mism[:4]:
+        it = items[int(m.get('idx', 0))]
+        ctx.violation("history dependence: the pixels of one tree differ between a fresh thread and render %s (%s vs %s)"
+                      % (m.get('phase'), str(m.get('base'))[:44], str(m.get('got'))[:44]),
+                      dict(kind='history-renders', opts=it[0], doc=it[1], phase=m.get('phase'), base=m.get('base'), got=m.get('got'), k=k,
+                           cmd="rvh c06-history %d  (stdin: 0<TAB>opts<TAB>doc)" % k))
+    ctx.cov['e2e_history_renders'] = dict(items=len(items), k=k, comparisons=done.get('comparisons'), parsed=done.get('parsed'))
+    return done.get('comparisons', 0)
+
+
 def pick_items(ctx, quick):
     rng = ctx.rng
     files = vlib.corpus_files()
@@ -351,17 +438,28 @@ def offending_sites(ctx):
             "(map (fun s => (ss_file s, ss_fn s, ss_kind s, ss_text s, ss_line s)) "
             "(filter (fun s => negb (mention_ok s)) c06_bin_hash_mentions)))).\n"
             "Eval vm_compute in (string_hash_fixed c06_hasher_sites, forbid_ok c06_forbid_unsafe, cache_per_call_ok, gen_fns_ok,\n"
-            "  c06_cache_new_sites, c06_cache_escapes, filter (fun g => negb (gf_shape_ok g)) c06_gen_id_fns, c06_scanner_selftest).\n")
+            "  c06_cache_new_sites, c06_cache_escapes, filter (fun g => negb (gf_shape_ok g)) c06_gen_id_fns, c06_scanner_selftest).\n"
+            "Eval vm_compute in (map (fun s => (ss_file s, ss_fn s, ss_kind s, ss_text s, ss_line s)) "
+            "(List.app (filter (fun s => negb (order_site_ok s)) (List.app c06_order_sites c06_bin_order_sites)) "
+            "(filter (fun s => negb (dep_site_ok s)) c06_dep_sites))).\n"
+            "Eval vm_compute in (css_sort_is_stable, dep_fields_ok, c06_dep_versions, c06_dep_fields).\n")
     rc, out = ctx.coq_eval('c06_offenders', "From Coq Require Import String List Bool ZArith.\nImport ListNotations.\nLocal Open Scope string_scope.\nLocal Open Scope Z_scope.\n" + body, SITE_IMPORTS)
     if rc != 0:
         return "ledger could not be evaluated: " + out[-400:]
     out = re.sub(r"\s+", " ", out)
     parts = [p.strip() for p in out.split(' = ')[1:]]
-    labels = ['hash sites', 'constructors', 'shared state', 'type mentions', 'hashers', 'command-line front ends (main.rs)', 'flags(string_hash_fixed, forbid_unsafe, cache_per_call, gen_fns_ok, Cache::new sites, escapes, bad gen fns)']
+    labels = ['hash sites (C06_hash_uses_lookup_only / C06_hash_receivers_resolved)', 'constructors (C06_hash_uses_lookup_only)',
+              'shared state (C06_state_ledger_discharged, C06_ledger_history_independent, C06_ledger_any_schedule, C06_no_shared_mutable_state: '
+              'cells whose class is Mutable = undischarged)',
+              'type mentions (C06_hash_mentions_accounted)', 'hashers (C06_fixed_hasher)', 'command-line front ends (C06_binaries_ledger, C06_state_ledger_discharged)',
+              'flags(string_hash_fixed, forbid_unsafe, cache_per_call, gen_fns_ok, Cache::new sites, escapes, bad gen fns)',
+              'order sites (C06_order_ledger: sort_unstable / heap / par_iter, or state in simplecss / fontdb)',
+              'flags2(C06_order_ledger: css_sort_is_stable, dep_fields_ok, dep versions, dep fields)']
     res = []
     for lab, p in zip(labels, parts):
         p = re.sub(r":\s*list .*$|:\s*\(?bool.*$", "", p).strip()
-        if p not in ('[]', 'nil') and not (lab.startswith('flags') and p.startswith('(true, true, true, true')):
+        if p not in ('[]', 'nil') and not (lab.startswith('flags(') and p.startswith('(true, true, true, true')) \
+                and not (lab.startswith('flags2') and p.startswith('(true, true')):
             res.append("%s: %s" % (lab, p[:700]))
     return " | ".join(res) if res else "(no ledger entry is rejected)"
 
@@ -386,7 +484,9 @@ def run(ctx):
         "NOT modelled, only observed by e2e-C06: thread scheduling, allocator, OS, third-party crates (roxmltree, fontdb, rustybuzz, "
         "ttf-parser, tiny-skia, image decoders, std::collections internals)"]
     ctx.assumptions = [
-        "PARTIAL: the theorems are about source-derived facts (ledger) and a container/counter/Arc model; schedules and histories are sampled, not proved",
+        "PARTIAL: the theorems are about source-derived facts (ledger) and a container/counter/Arc/state-machine model; the history and schedule "
+        "theorems (C06_history_independent, C06_any_schedule) hold for every program that touches the ledger's cells only as their classes permit "
+        "(ImmInit: never written - rustc; CallLocal: Rc is !Send and dropped in the call; ExtInput: files unchanged between calls); real schedules and histories are sampled",
         "container model: the order oracle permutes the storage arbitrarily before every operation but cannot add, drop or alter entries",
         "string_hash is a fixed function (DefaultHasher::new() has constant keys); hash collisions only make more ids 'taken'",
         "compile-time configuration `--cfg resvg_verif` hooks are excluded from the scan (never part of a normal build)"]
@@ -512,6 +612,12 @@ def run(ctx):
             break
     ctx.cov['e2e_history_image_pairs'] = dict(pairs=len(pairs), comparisons=nh)
 
+    # (a') history search: state-targeted documents + a sample of the items, k renders in a row on one thread vs fresh thread
+    sd = [('-', d) for d in state_docs(ctx.rng, 16 if not deep else 120)]
+    pool = [it for it in items if any(x in it[1] for x in ('/filters/', '/pattern/', '/masking/', '/painting/'))] or items
+    hsel = ctx.rng.sample(pool, min(40 if not deep else 500, len(pool)))
+    nhist = history_oracle(ctx, binp, sd + hsel, 10 if not deep else 12)
+
     # (d') the shipped binaries in fresh processes with several font sources
     cli_fresh_oracle(ctx, 6 if not deep else 10)
     kinds = dict(ok=0, error=0, panic=0)
@@ -522,7 +628,7 @@ def run(ctx):
         src = 'gen' if not items[i][1].startswith('@') else ('witness' if '/witness/' in items[i][1] else 'corpus')
         ctx.note_case("e2e/%s/%s" % (src, base[i].get('s', '') + base[i].get('p', '')), nontrivial=(k == 'ok'))
     ctx.cov['e2e_outcomes'] = kinds
-    ctx.cov['e2e_cases'] = ncomp + n_fresh_cmp + nh + ctx.cov.get('e2e_cli_fresh_process', {}).get('runs', 0)
+    ctx.cov['e2e_cases'] = ncomp + n_fresh_cmp + nh + nhist + ctx.cov.get('e2e_cli_fresh_process', {}).get('runs', 0)
     ctx.add_sample(dict(op='e2e-C06', doc=doc_of(items[0]), digest=base[0]))
     ctx.add_sample(dict(op='e2e-C06', doc=items[-1][1][:600], digest=base[-1]))
     ctx.cov['rule'] = ("ledger: every method call / for-in / whole-value use of a HashMap/HashSet typed binding or field, every shared-state "
@@ -532,7 +638,11 @@ def run(ctx):
                        "3 repeated parses+renders, reversed and permuted processing order, N threads (half render the shared Tree, half re-parse with the "
                        "shared Arc<fontdb>), fresh processes; pairs of documents with look-alike raster images (equal size / byte length / first 256 bytes) in both "
                        "orders in one process vs fresh processes; the real resvg and usvg binaries x 3 text documents with font fallback x 3 --use-fonts-dir + "
-                       "2 --use-font-file (+ one duplicate) x 6 fresh processes, byte equality.  Non-trivial = the document parses; distinct by output digest.")
+                       "2 --use-font-file (+ one duplicate) x 6 fresh processes, byte equality; history search: 16 state-targeted documents (zero-size pattern "
+                       "tiles before a valid pattern, displacement map after same-size intermediates, small-sigma blurs, nested layers / patterns) + 40 "
+                       "filter/pattern/mask corpus items, each tree rendered on a fresh thread, 10 times in a row on one long-lived thread, and on a fresh thread "
+                       "of the used process.  Order ledger: every sort/dedup/heap/par site of usvg, resvg, main.rs, simplecss, fontdb.  "
+                       "Non-trivial = the document parses; distinct by output digest.")
 
     # ------------------------------------------------------------------ verdict on proofs / ties (DESIGN 1.5)
     if not proof_ok:
@@ -573,6 +683,13 @@ def replay(ctx, path):
         for v in ctx.violations[n0:]:
             print("REPRODUCED: " + v[0])
         return 1 if len(ctx.violations) > n0 else 0
+    if rp.get('kind') == 'history-renders':
+        rc, out = ctx.rvh(binp, ['c06-history', str(rp.get('k', 10))], inp="0\t%s\t%s\n" % (rp.get('opts', '-'), rp['doc']))
+        print("document: %s" % rp['doc'][:2000])
+        print(out)
+        bad = 'MISMATCH' in out
+        print("REPRODUCED: renders of one tree differ (fresh thread vs repeated renders on one thread)" if bad else "not reproduced")
+        return 1 if bad else 0
     if rp.get('kind') == 'history-pair':
         a, b = rp['rendered_before'], rp['doc']
         rc, out = ctx.rvh(binp, ['c06-e2e', '1', '2', '2'], inp="0\t-\t%s\n1\t-\t%s\n" % (a, b))
